@@ -11,8 +11,46 @@ Definition expected_recv (b : binding) : option recv :=
   | BInst => Some RObj
   | BSub => Some RSubObj
   | BCmClass | BCmInst => Some RCls
-  | BCmSub => Some RSubCls
+  | BCmSub | BCmSubInst => Some RSubCls
+  | BSub2 => Some RSub2Obj
+  | BCmSub2 => Some RSub2Cls
   end.
+
+(* ---------------------------------------------------------------- lookup history *)
+(* no lookup writes to the stored decorator object: after any history it is what it was *)
+Lemma after_hist_id d s hs : after_hist d s hs = s.
+Proof. revert s; induction hs as [|b r IH]; intros s; cbn; auto. Qed.
+
+Lemma get_step_state d s b : snd (get_step d s b) = s.
+Proof. reflexivity. Qed.
+
+(* what a lookup hands out does not depend on the lookups made before it *)
+Lemma resolve_hist hs d b : resolve hs d b = resolve [] d b.
+Proof. unfold resolve. destruct (access b) as [[o c]|]; auto. rewrite after_hist_id. reflexivity. Qed.
+
+Lemma has_asynq_attr_hist hs d b : has_asynq_attr hs d b = has_asynq_attr [] d b.
+Proof. unfold has_asynq_attr. rewrite resolve_hist. reflexivity. Qed.
+Lemma is_pure_hist hs d b : is_pure hs d b = is_pure [] d b.
+Proof. unfold is_pure. rewrite resolve_hist. reflexivity. Qed.
+Lemma has_async_hist hs d b : has_async hs d b = has_async [] d b.
+Proof. apply has_asynq_attr_hist. Qed.
+Lemma is_async_hist hs d b : is_async hs d b = is_async [] d b.
+Proof. unfold is_async. rewrite has_asynq_attr_hist, is_pure_hist. reflexivity. Qed.
+Lemma get_async_kind_hist hs d b : get_async_kind hs d b = get_async_kind [] d b.
+Proof. unfold get_async_kind. rewrite has_asynq_attr_hist, is_pure_hist. reflexivity. Qed.
+Lemma get_async_or_sync_kind_hist hs d b : get_async_or_sync_kind hs d b = get_async_or_sync_kind [] d b.
+Proof. unfold get_async_or_sync_kind. rewrite has_asynq_attr_hist. reflexivity. Qed.
+
+(* the receiver a lookup binds is a function of THIS lookup's (owner, cls) alone: Python's binding of the
+   raw function / classmethod / staticmethod for the class or instance the attribute was looked up through *)
+Lemma expected_recv_of_path b :
+  expected_recv b = match access b with None => None | Some (owner, cls) => py_get (mtype_of b) owner cls end.
+Proof. destruct b; reflexivity. Qed.
+
+Ltac nohist :=
+  unfold Dispatch.target_asynq, Dispatch.target_call, Dispatch.has_async, Dispatch.is_async, Dispatch.get_async_kind,
+    Dispatch.get_async_or_sync_kind, Dispatch.has_asynq_attr, Dispatch.is_pure in *;
+  rewrite ?resolve_hist in *.
 
 (* what the direct call hands back *)
 Definition ret_kind (d : deco) : retkind :=
@@ -23,6 +61,7 @@ Section Proofs.
   Variable raises : A -> bool.
   Variables dflt_b dflt_k : A.
   Variable cx : ctx.
+  Variable hs : list binding.
 
   Notation arg := (arg A).
   Notation kwargs := (kwargs A).
@@ -30,11 +69,16 @@ Section Proofs.
   Notation run_fn := (run_fn A raises dflt_b dflt_k).
   Notation async_effect := (async_effect A raises dflt_b dflt_k).
   Notation own_task := (own_task A raises dflt_b dflt_k).
-  Notation target_asynq := (target_asynq A raises dflt_b dflt_k).
-  Notation target_call := (target_call A raises dflt_b dflt_k cx).
-  Notation async_call_effect := (async_call_effect A raises dflt_b dflt_k cx).
-  Notation invoke := (invoke A raises dflt_b dflt_k cx).
-  Notation invoke_ctx := (invoke_ctx A raises dflt_b dflt_k cx).
+  Notation target_asynq := (target_asynq A raises dflt_b dflt_k hs).
+  Notation target_call := (target_call A raises dflt_b dflt_k cx hs).
+  Notation async_call_effect := (async_call_effect A raises dflt_b dflt_k cx hs).
+  Notation invoke := (invoke A raises dflt_b dflt_k cx hs).
+  Notation invoke_ctx := (invoke_ctx A raises dflt_b dflt_k cx hs).
+  Notation has_async := (Dispatch.has_async hs).
+  Notation is_pure := (Dispatch.is_pure hs).
+  Notation is_async := (Dispatch.is_async hs).
+  Notation get_async_kind := (Dispatch.get_async_kind hs).
+  Notation get_async_or_sync_kind := (Dispatch.get_async_or_sync_kind hs).
   Notation task_frame := (task_frame A).
   Notation prepend := (prepend A).
   Notation finish := (finish A).
@@ -55,17 +99,17 @@ Section Proofs.
   Lemma asynq_path d b bk pos kw :
     valid d b = true -> has_async d b = true ->
     target_asynq d b bk pos kw = Some (async_effect d (style_of b) bk (prepend (expected_recv b) pos) kw).
-  Proof. destruct d, b; intros Hv Ha; try discriminate Hv; try discriminate Ha; reflexivity. Qed.
+  Proof. intros Hv Ha; nohist; destruct d, b; try discriminate Hv; try discriminate Ha; reflexivity. Qed.
 
   Lemma asynq_absent d b bk pos kw :
     valid d b = true -> has_async d b = false -> target_asynq d b bk pos kw = None.
-  Proof. destruct d, b; intros Hv Ha; try discriminate Hv; try discriminate Ha; reflexivity. Qed.
+  Proof. intros Hv Ha; nohist; destruct d, b; try discriminate Hv; try discriminate Ha; reflexivity. Qed.
 
   (* the direct call reaches fn (sync_fn for a pair) with  [receiver] ++ user positionals *)
   Lemma call_path d b bk pos kw :
     valid d b = true ->
     target_call d b bk pos kw = (ret_kind d, direct_effect d (style_of b) bk (prepend (expected_recv b) pos) kw).
-  Proof. destruct d, b; intros Hv; try discriminate Hv; reflexivity. Qed.
+  Proof. intros Hv; nohist; destruct d, b; try discriminate Hv; reflexivity. Qed.
 
   Theorem receiver_once d b bk pos kw :
     valid d b = true ->
@@ -135,7 +179,7 @@ Section Proofs.
     is_async d b = true /\
     get_async_kind d b = (if has_async d b then GAsynqAttr else GSelf) /\
     get_async_or_sync_kind d b = get_async_kind d b.
-  Proof. destruct d, b; intros Hv; try discriminate Hv; repeat split. Qed.
+  Proof. intros Hv; nohist; destruct d, b; try discriminate Hv; repeat split. Qed.
 
   Lemma eff_finish s e : eff (finish s e) = e.
   Proof. destruct e as [c [v|x|v]]; reflexivity. Qed.
@@ -246,7 +290,7 @@ Section Proofs.
     invoke DPair b YieldAsynq pos kw bk = a /\ invoke DPair b AsyncCall pos kw bk = a.
   Proof.
     assert (Hv : valid DPair b = true) by reflexivity.
-    assert (Ha : has_async DPair b = true) by (destruct b; reflexivity).
+    assert (Ha : has_async DPair b = true) by (nohist; destruct b; reflexivity).
     destruct (forms_with_asynq DPair b bk pos kw Hv Ha) as (H1 & H2 & H3 & _ & _ & H6 & _).
     cbv zeta. rewrite H1, H2, H3, H6, !eff_finish, !stat_finish.
     unfold direct_effect, Dispatch.async_effect.
@@ -496,23 +540,80 @@ Lemma direct_effect_ctx A raises db dk cx1 cx2 d st bk pos kw :
   direct_effect A raises db dk cx1 d st bk pos kw = direct_effect A raises db dk cx2 d st bk pos kw.
 Proof. unfold direct_effect. destruct d; reflexivity. Qed.
 
-Theorem context_independent A raises db dk cx d b f bk pos kw :
+Theorem context_independent A raises db dk cx hs d b f bk pos kw :
   valid d b = true ->
-  invoke A raises db dk cx d b f pos kw bk = invoke A raises db dk CTop d b f pos kw bk /\
-  invoke_ctx A raises db dk cx d b f pos kw bk = (caller_of cx, invoke A raises db dk CTop d b f pos kw bk).
+  invoke A raises db dk cx hs d b f pos kw bk = invoke A raises db dk CTop hs d b f pos kw bk /\
+  invoke_ctx A raises db dk cx hs d b f pos kw bk = (caller_of cx, invoke A raises db dk CTop hs d b f pos kw bk).
 Proof.
   intros Hv.
-  assert (E : invoke A raises db dk cx d b f pos kw bk = invoke A raises db dk CTop d b f pos kw bk).
-  { destruct (has_async d b) eqn:Ha.
-    - destruct (forms_with_asynq A raises db dk cx d b bk pos kw Hv Ha) as (H1 & H2 & H3 & H4 & H5 & H6 & H7).
-      destruct (forms_with_asynq A raises db dk CTop d b bk pos kw Hv Ha) as (G1 & G2 & G3 & G4 & G5 & G6 & G7).
+  assert (E : invoke A raises db dk cx hs d b f pos kw bk = invoke A raises db dk CTop hs d b f pos kw bk).
+  { destruct (has_async hs d b) eqn:Ha.
+    - destruct (forms_with_asynq A raises db dk cx hs d b bk pos kw Hv Ha) as (H1 & H2 & H3 & H4 & H5 & H6 & H7).
+      destruct (forms_with_asynq A raises db dk CTop hs d b bk pos kw Hv Ha) as (G1 & G2 & G3 & G4 & G5 & G6 & G7).
       destruct f; rewrite ?H1, ?H2, ?H3, ?H4, ?H5, ?H6, ?H7, ?G1, ?G2, ?G3, ?G4, ?G5, ?G6, ?G7,
         ?(direct_effect_ctx A raises db dk cx CTop); reflexivity.
-    - destruct (forms_without_asynq A raises db dk cx d b bk pos kw Hv Ha) as (H1 & H2 & H3 & H4 & H5 & H6 & H7).
-      destruct (forms_without_asynq A raises db dk CTop d b bk pos kw Hv Ha) as (G1 & G2 & G3 & G4 & G5 & G6 & G7).
+    - destruct (forms_without_asynq A raises db dk cx hs d b bk pos kw Hv Ha) as (H1 & H2 & H3 & H4 & H5 & H6 & H7).
+      destruct (forms_without_asynq A raises db dk CTop hs d b bk pos kw Hv Ha) as (G1 & G2 & G3 & G4 & G5 & G6 & G7).
       destruct f; rewrite ?H1, ?H2, ?H3, ?H4, ?H5, ?H6, ?H7, ?G1, ?G2, ?G3, ?G4, ?G5, ?G6, ?G7; reflexivity. }
   split; [exact E|].
   rewrite <- E. apply caller_intact. exact Hv.
+Qed.
+
+(* ---------------------------------------------------------------- history independence *)
+(* a call made through path b gives the same (status, body runs, outcome), leaves the calling task the same
+   and classifies the same whatever lookups of the same attribute (through other classes / instances of the
+   hierarchy) were made before it *)
+Lemma target_asynq_hist A raises db dk hs d b bk pos kw :
+  target_asynq A raises db dk hs d b bk pos kw = target_asynq A raises db dk [] d b bk pos kw.
+Proof. unfold target_asynq. rewrite resolve_hist. reflexivity. Qed.
+
+Lemma target_call_hist A raises db dk cx hs d b bk pos kw :
+  target_call A raises db dk cx hs d b bk pos kw = target_call A raises db dk cx [] d b bk pos kw.
+Proof. unfold target_call. rewrite resolve_hist. reflexivity. Qed.
+
+Theorem history_independent A raises db dk cx hs d b f bk pos kw :
+  invoke A raises db dk cx hs d b f pos kw bk = invoke A raises db dk cx [] d b f pos kw bk /\
+  invoke_ctx A raises db dk cx hs d b f pos kw bk = invoke_ctx A raises db dk cx [] d b f pos kw bk /\
+  (is_async hs d b, is_pure hs d b, has_async hs d b, get_async_kind hs d b, get_async_or_sync_kind hs d b) =
+  (is_async [] d b, is_pure [] d b, has_async [] d b, get_async_kind [] d b, get_async_or_sync_kind [] d b).
+Proof.
+  assert (E : invoke A raises db dk cx hs d b f pos kw bk = invoke A raises db dk cx [] d b f pos kw bk).
+  { unfold invoke, via_asynq, via_call, async_call_effect.
+    rewrite (get_async_kind_hist hs), (get_async_or_sync_kind_hist hs), (is_pure_hist hs),
+      (target_asynq_hist A raises db dk hs), (target_call_hist A raises db dk cx hs). reflexivity. }
+  split; [exact E | split].
+  - unfold invoke_ctx. rewrite E. reflexivity.
+  - rewrite (is_async_hist hs), (is_pure_hist hs), (has_async_hist hs), (get_async_kind_hist hs),
+      (get_async_or_sync_kind_hist hs). reflexivity.
+Qed.
+
+(* a whole trace of uses of one decorated attribute: every warm-up's outcome is its outcome in isolation *)
+Lemma warm_out_hist A raises db dk hs d bk w :
+  warm_out A raises db dk hs d bk w = warm_out A raises db dk [] d bk w.
+Proof.
+  destruct w as [[b a] v]. unfold warm_out. destruct (wform a); auto.
+  f_equal. apply history_independent.
+Qed.
+
+Theorem trace_independent A raises db dk hs d bk ws :
+  run_warm A raises db dk hs d bk ws = map (warm_out A raises db dk [] d bk) ws.
+Proof.
+  revert hs; induction ws as [|w r IH]; intros hs; cbn [run_warm map]; auto.
+  rewrite IH, (warm_out_hist A raises db dk hs). reflexivity.
+Qed.
+
+(* every call of the trace and the call under test run the body bound to the class / instance THEY were made
+   through: receiver = Python's binding for this lookup's (owner, cls), prepended exactly once *)
+Theorem bound_to_own_lookup A raises db dk cx hs d b bk pos kw :
+  valid d b = true ->
+  let r := match access b with None => None | Some (owner, cls) => py_get (mtype_of b) owner cls end in
+  target_call A raises db dk cx hs d b bk pos kw =
+    (ret_kind d, direct_effect A raises db dk cx d (style_of b) bk (prepend A r pos) kw) /\
+  (has_async hs d b = true ->
+   target_asynq A raises db dk hs d b bk pos kw = Some (async_effect A raises db dk d (style_of b) bk (prepend A r pos) kw)).
+Proof.
+  intros Hv r. subst r. rewrite <- expected_recv_of_path.
+  destruct (receiver_once A raises db dk cx hs d b bk pos kw Hv) as (H1 & H2 & _). split; auto.
 Qed.
 
 (* the case analysis really covers every cell: the enumerations used by the correspondence are complete *)
@@ -527,33 +628,33 @@ Proof. destruct bk as [[] []]; cbn; tauto. Qed.
 Lemma all_ctxs_complete c : In c all_ctxs.
 Proof. destruct c; cbn; tauto. Qed.
 
-(* 74 valid decorator x binding cells, swept: the argument-free part of the classification *)
+(* 98 valid decorator x binding cells, swept: the argument-free part of the classification *)
 Definition cell_ok (d : deco) (b : binding) : bool :=
   negb (valid d b) ||
-  (Bool.eqb (has_async d b) (negb (is_pure d b)) && is_async d b &&
-   match get_async_kind d b, get_async_or_sync_kind d b with
-   | GAsynqAttr, GAsynqAttr => has_async d b
-   | GSelf, GSelf => is_pure d b
+  (Bool.eqb (has_async [] d b) (negb (is_pure [] d b)) && is_async [] d b &&
+   match get_async_kind [] d b, get_async_or_sync_kind [] d b with
+   | GAsynqAttr, GAsynqAttr => has_async [] d b
+   | GSelf, GSelf => is_pure [] d b
    | _, _ => false
    end).
 Lemma classification_sweep :
   forallb (fun d => forallb (cell_ok d) all_bindings) all_decos = true /\
-  length (filter (fun p => valid (fst p) (snd p)) (list_prod all_decos all_bindings)) = 74%nat.
+  length (filter (fun p => valid (fst p) (snd p)) (list_prod all_decos all_bindings)) = 98%nat.
 Proof. split; vm_compute; reflexivity. Qed.
 
 (* non-vacuity: the hypotheses are satisfiable and the conclusions talk about real runs *)
 Example agree_nonvacuous :
-  valid DPair BCmInst = true /\ has_async DPair BCmInst = true /\
-  invoke Z (fun z => z =? 99) 20 30 CGen DPair BCmInst AsynqValue [AVal 1] [(Kk, AVal 3)] (BK BBatch RetResult) =
+  valid DPair BCmInst = true /\ has_async [BCmSub] DPair BCmInst = true /\
+  invoke Z (fun z => z =? 99) 20 30 CGen [BCmSub] DPair BCmInst AsynqValue [AVal 1] [(Kk, AVal 3)] (BK BBatch RetResult) =
     (SRetFuture, [CBody FnBody (Some (AObj RCls)) (AVal 1) (AVal 20) (AVal 3)], ROk (VBody FnBody (AVal 1) (AVal 20) (AVal 3) 7)) /\
-  invoke Z (fun z => z =? 99) 20 30 CGen DPair BCmInst Sync [AVal 1] [(Kk, AVal 3)] (BK BBatch RetResult) =
+  invoke Z (fun z => z =? 99) 20 30 CGen [BCmSub] DPair BCmInst Sync [AVal 1] [(Kk, AVal 3)] (BK BBatch RetResult) =
     (SRetValue, [CBody SyncBody (Some (AObj RCls)) (AVal 1) (AVal 20) (AVal 3)], ROk (VBody SyncBody (AVal 1) (AVal 20) (AVal 3) 0)) /\
-  valid DPure BSub = true /\ has_async DPure BSub = false /\
-  invoke Z (fun z => z =? 99) 20 30 CTop DPure BSub AsyncCall [AVal 99] [] (BK BPlain RetReturn) =
+  valid DPure BSub = true /\ has_async [] DPure BSub = false /\
+  invoke Z (fun z => z =? 99) 20 30 CTop [] DPure BSub AsyncCall [AVal 99] [] (BK BPlain RetReturn) =
     (SRaised, [CBody FnBody (Some (AObj RSubObj)) (AVal 99) (AVal 20) (AVal 30)], RErr 901) /\
   (* a synchronous call from inside a plain-bodied task, body = plain function ending in result(v)
      that looks at get_active_task(): own task (8), value delivered, calling task goes on *)
-  invoke_ctx Z (fun z => z =? 99) 20 30 CPlain DAsynq BInst Sync [AVal 1] [] (BK BPlainOwn RetResult) =
+  invoke_ctx Z (fun z => z =? 99) 20 30 CPlain [BSub2; BClass] DAsynq BInst Sync [AVal 1] [] (BK BPlainOwn RetResult) =
     (CallerOwn, (SRetValue, [CBody FnBody (Some (AObj RObj)) (AVal 1) (AVal 20) (AVal 30)],
                  ROk (VBody FnBody (AVal 1) (AVal 20) (AVal 30) 8))) /\
   (* in_ctx is not vacuous: an escaping AsyncTaskResult would finish the calling task *)
@@ -562,3 +663,16 @@ Example agree_nonvacuous :
   in_ctx Z CTop (SRetValue, [], RResult (VBody FnBody (AVal 1) (AVal 20) (AVal 30) 10)) =
     (CallerNone, (SRaised, [], RErr E_TASKRESULT)).
 Proof. repeat split. Qed.
+
+(* the history scenario is not vacuous: a classmethod sync_fn pair first used through the sibling class Sub2
+   (synchronously) and through the base class, then called through Sub — each call is bound to its own class *)
+Example trace_nonvacuous :
+  run_warm Z (fun z => z =? 99) 20 30 [] DPair (BK BPlain RetReturn) [(BCmSub2, WSync, 700); (BCmClass, WGet, 701); (BCmInst, WAsynq, 702)] =
+    [Some (SRetValue, [CBody SyncBody (Some (AObj RSub2Cls)) (AVal 700) (AVal 20) (AVal 30)],
+           ROk (VBody SyncBody (AVal 700) (AVal 20) (AVal 30) 0));
+     None;
+     Some (SRetFuture, [CBody FnBody (Some (AObj RCls)) (AVal 702) (AVal 20) (AVal 30)],
+           ROk (VBody FnBody (AVal 702) (AVal 20) (AVal 30) 0))] /\
+  invoke Z (fun z => z =? 99) 20 30 CTop [BCmSub2; BCmClass; BCmInst] DPair BCmSub Sync [AVal 1] [] (BK BPlain RetReturn) =
+    (SRetValue, [CBody SyncBody (Some (AObj RSubCls)) (AVal 1) (AVal 20) (AVal 30)], ROk (VBody SyncBody (AVal 1) (AVal 20) (AVal 30) 0)).
+Proof. split; reflexivity. Qed.
